@@ -35,6 +35,10 @@ UNITS2 = {
                             'rf_pack_u32le', 'rf_unpack_bytes', 'rf_unpack_char', 'rf_unpack_s8', 'rf_unpack_u8', 'rf_unpack_s16be',
                             'rf_unpack_s16le', 'rf_unpack_u16be', 'rf_unpack_u16le', 'rf_unpack_s32be', 'rf_unpack_s32le', 'rf_unpack_u32be',
                             'rf_unpack_u32le', 'memcmp', 'memcpy']}),
+    # mlog.c: the file-scope log (its counter is a variable, its 256 lines live in memory at `log_line`), `va_arg` reads are inputs,
+    # the formatter and the stream are the environment; mlog_dump's loop is unrolled 3 times
+    'MlogSeq': (os.path.join(vlib.REPO, 'librfn/mlog.c'), ['vmlog', 'vmlog_nice', 'mlog_clear', 'get_line', 'mlog_get_line', 'mlog_dump'], 3,
+                {'externs': ['strdup_printf', 'fprintf'], 'inmem': ['_IO_FILE']}),
     # one iteration of the POSIX main loop; the clock, the scheduling pass and the sleep are the environment
     'MainLoopSeq': (os.path.join(vlib.VERIF, 'harness/wrap_mainloop.c'), ['fibre_scheduler_main_loop'], 1,
                     {'externs': ['time_now', 'fibre_scheduler_next', 'usleep'], 'flags': ['-I' + vlib.REPO]}),
@@ -48,7 +52,7 @@ def regen(units):
             if u in UNITS2:
                 path, fns, fuel = UNITS2[u][:3]
                 opt = UNITS2[u][3] if len(UNITS2[u]) > 3 else {}
-                text = c2lean2.generate(path, fns, 'Librfn.Gen.' + u, INC + opt.get('flags', []), fuel=fuel, externs=opt.get('externs', ()))
+                text = c2lean2.generate(path, fns, 'Librfn.Gen.' + u, INC + opt.get('flags', []), fuel=fuel, externs=opt.get('externs', ()), inmem=opt.get('inmem', ()))
             else:
                 path, fns = UNITS[u]
                 text = c2lean.generate(path, fns, 'Librfn.Gen.' + u, INC)
